@@ -371,6 +371,14 @@ def run_case(case, obs=None):
     compare(exp, got, "", out, fmt)
     if bytes(buf) != bytes(data):
         out.append(("%s/input_buffer_modified" % fmt, "%s: decoding changed the data-in buffer it was given" % fmt))
+    elif not out:
+        # the decoded values are the caller's from now on: the next transfer into the same buffer must not show in them
+        f1 = freeze(got)
+        for i in range(len(buf)):
+            buf[i] ^= 0xFF
+        if freeze(got) != f1:
+            out.append(("%s/result_aliases_buffer" % fmt, "%s: the decoded result changed when the data-in buffer was overwritten afterwards "
+                        "(some value is a view into the buffer, not a copy)" % fmt))
     return out
 
 
